@@ -69,7 +69,7 @@ def run(ctx):
     ctx.rule("R14.2", "vAMM State.open tested true on every success path of SwapInput, SwapOutput and SettleFunding", 3)
     ctx.rule("R14.3", "registered (insurance fund IsVamm{msg.vamm} on config.insurance_fund) and open (that vAMM's State.open) on every success path of Open, Liquidate, Withdraw, PayFunding", 8)
     ctx.rule("R14.4", "registry: duplicate and capacity guards precede every store of the list; capacity constant is 3; membership query reads the same item", 4)
-    ctx.rule("R14.5", "shutdown sends SetOpen{false} only to vAMMs just observed open, or the vAMM accepts a redundant close; a closed vAMM does not end the iteration", 2)
+    ctx.rule("R14.5", "shutdown sends SetOpen{false} only to vAMMs just observed open, or the vAMM accepts a redundant close; a closed vAMM does not end the iteration; the registry is read whole", 3)
 
     # ---------------------------------------------------------------- R14.1
     def state_load(base):
@@ -254,6 +254,30 @@ def run(ctx):
                 later_next = any(kind == "e" and x.name == "std::iter::Iterator::next" for (kind, x) in q.items[seen_closed_at + 1:])
                 if not later_next:
                     stops = q
+        # the registry is read whole: a limit handed to the reader is the capacity constant itself (or not smaller)
+        lim_c = w.consts_by_pretty.get("margined_insurance_fund::state::VAMM_LIMIT")
+        cap = None
+        if lim_c is not None:
+            import re as _re
+            mm = _re.search(r"(\d+)", lim_c.get("val", ""))
+            cap = int(mm.group(1)) if mm else None
+        short_read = None
+        n_reads = 0
+        for q in a.ok_paths():
+            for e in q.events:
+                if e.target is None or ("read", LIST) not in ix.event_effects(e)[0]:
+                    continue
+                n_reads += 1
+                for i, arg in enumerate(e.args):
+                    if i < e.target.arg_count and e.target.locals[i + 1]["ty"] in ("usize", "u32", "u64"):
+                        v = ix.inline(a.s(arg))
+                        okv = (tag(v) == "constdef" and payload(v)[0].endswith("::VAMM_LIMIT")) or \
+                              (tag(v) == "int" and cap is not None and int(payload(v)[0]) >= cap)
+                        if not okv:
+                            short_read = short_read or sym.show(v, 4)
+        ctx.inst("R14.5", "shutdown-reads-whole-registry:%s" % short_fn(a.fn), short_read is None and n_reads > 0, a.fn.where(),
+                 ("the registry is read with limit %s (capacity %s): vAMMs beyond it are never closed" % (short_read, cap)) if short_read else
+                 "%d registry reads on the success paths, none truncated below the capacity" % n_reads)
         ctx.inst("R14.5", "shutdown-visits-all:%s" % short_fn(a.fn), stops is None, a.fn.where(),
                  "after observing a closed vAMM the loop %s" % ("advances to the next registry entry" if stops is None else
                  "EXITS: vAMMs registered after an already-closed one are never closed"))
